@@ -126,8 +126,12 @@ def _gen_scores_case(rng, i):
     if rng.random() < 0.15 and pos and neg:
         # the two classes held in arrays of different dtypes (integer-valued / float32 scores in one class only):
         # "all scores" must still be the exact score values of both classes
-        mixdt = rng.choice(["posint", "negint", "posf4", "negf4"])
-        if mixdt == "posint":
+        mixdt = rng.choice(["posint", "negint", "posf4", "negf4", "i1", "i1"])
+        if mixdt == "i1":
+            # int8 scores spread over the whole range of the dtype (neighbouring evaluation points further apart than 127)
+            pos = [float(rng.choice([-127, -120, -100, 100, 110, 127, rng.randint(-127, 127)])) for _ in pos][:8]
+            neg = [float(rng.choice([-127, -110, -90, 90, 120, 127, rng.randint(-127, 127)])) for _ in neg][:8]
+        elif mixdt == "posint":
             pos = [float(round(x)) for x in pos]
         elif mixdt == "negint":
             neg = [float(round(x)) for x in neg]
@@ -141,7 +145,7 @@ def _gen_scores_case(rng, i):
     via = rng.choice(["name", "name", "alias", "callable", "callable"])
     allv = sorted(pos + neg)
     pk = rng.choice(["none", "int", "int", "arr"])
-    if pk == "int" and mixdt in ("posf4", "negf4"):
+    if pk == "int" and mixdt in ("posf4", "negf4", "i1"):
         pk = "none"  # np.linspace between float32 end points is computed in float32: grid rounding, not semantics
     k, parr, ptype = 0, [], "array"
     if pk == "int":
@@ -187,6 +191,33 @@ def _gen_scores_case(rng, i):
 def gen_one(rng, i, tier):
     if i % 4 == 3:
         return _gen_scores_case(rng, i)
+    r_ = rng.random()
+    if r_ < 0.012:
+        # thousands of sample points with ONE crossing, placed in the segment that straddles a block boundary (blocks of
+        # 512 ... 8192 samples): anything that works through the samples in blocks must not lose that segment
+        m_ = rng.choice([512, 1000, 1024, 2048, 4096, 4096, 4096, 5000, 8192]) + rng.choice([0, 0, 1])
+        n_ = m_ + rng.randint(2, 40)
+        x = [float(j) * 0.5 for j in range(n_)]
+        # one step between samples m_-1 and m_ (the segment straddling a block boundary of that size), flat elsewhere
+        y = [0.0 if j < m_ else 1.0 for j in range(n_)]
+        return {"op": "invpl", "xk": "dyadic", "yk": "dyadic", "x": x, "y": y, "ts": [0.5, rng.choice([0.75, 0.25, 2.0])],
+                "dtype": "float", "scalar": False, "aslist": False, "long": True}
+    if r_ < 0.08:
+        # sample points / function values held in a narrow signed integer dtype, neighbours further apart than the dtype's
+        # maximum: every difference has to be taken after conversion to floating point
+        dt = rng.choice(["i1", "i1", "i2"])
+        top = 127 if dt == "i1" else 32767
+        n_ = rng.randint(2, 8)
+        x = sorted(rng.sample(range(-top, top + 1), n_))
+        if rng.random() < 0.7 and n_ >= 3:
+            x[0], x[-1] = -top + rng.randint(0, 9), top - rng.randint(0, 9)
+            x = sorted(set(x))
+            n_ = len(x)
+        y = [rng.choice([-top + rng.randint(0, 20), top - rng.randint(0, 20), rng.randint(-top, top)]) for _ in range(n_)]
+        ts = [float(t) for t in _gen_targets(rng, [float(v) for v in y], "int")]
+        return {"op": "invpl", "xk": "int", "yk": "int", "x": [float(v) for v in x], "y": [float(v) for v in y],
+                "ts": [float(math.floor(t)) for t in ts] if rng.random() < 0.5 else ts, "dtype": dt,
+                "dtype_y": rng.choice([dt, dt, "float"]), "scalar": rng.random() < 0.3, "aslist": False}
     xk, yk, x, y = _gen_curve(rng)
     ts = _gen_targets(rng, y, yk)
     dtype = "int" if (xk == "int" and yk == "int" and rng.random() < 0.3) else "float"
@@ -306,11 +337,14 @@ def _build_invpl(inp) -> Case:
 
     inp = dict(inp)
     x, y, ts = list(inp["x"]), list(inp["y"]), [float(t) for t in inp["ts"]]
-    npdt = int if inp["dtype"] == "int" else float
-    if inp["aslist"] and inp["dtype"] != "int":
+    NPDT = {"int": int, "i1": np.int8, "i2": np.int16}
+    npdt = NPDT.get(inp["dtype"], float)
+    if inp["aslist"] and inp["dtype"] == "float":
         xa, ya = list(x), list(y)
     else:
-        xa, ya = np.array(x, dtype=npdt), np.array(y, dtype=npdt)
+        xa, ya = np.array(x, dtype=npdt), np.array(y, dtype=NPDT.get(inp.get("dtype_y", inp["dtype"]), float))
+    if inp["dtype"] in ("i1", "i2"):
+        npdt = float  # targets stay floating point
     xb, yb = np.array(xa, copy=True), np.array(ya, copy=True)
     pre = []
     sig = "invpl"
@@ -419,7 +453,8 @@ def _build_thrmetric(inp) -> Case:
     inp = dict(inp)
     pos, neg, ts = list(inp["pos"]), list(inp["neg"]), [float(t) for t in inp["ts"]]
     metric = inp["metric"]
-    dts = {"posint": (int, float), "negint": (float, int), "posf4": (np.float32, float), "negf4": (float, np.float32)}.get(
+    dts = {"posint": (int, float), "negint": (float, int), "posf4": (np.float32, float), "negf4": (float, np.float32),
+           "i1": (np.int8, np.int8)}.get(
         inp.get("mixdt"), (float, float))
     s = Scores(np.array(pos, dtype=dts[0]), np.array(neg, dtype=dts[1]), nb_easy_pos=inp["ep"], nb_easy_neg=inp["en"],
                score_class=inp["sc"], equal_class=inp["ec"])
